@@ -232,3 +232,29 @@ def gen_agg_expr(rng, eg, depth=1):
             return cls(node, other), ('int' if ty == oty == 'int' else 'Decimal')
         return ast.Add(node, ast.Constant(1)), ty
     return node, ty
+
+
+def perturb_constant(node, rng):
+    """deep copy of `node` in which one literal has another value of the same type; None when it holds no such literal.
+    (Used for keys that look like a target but are not: they must not be merged with it.)"""
+    import copy
+    import datetime
+    from decimal import Decimal
+    from beanquery.parser import ast
+    new = copy.deepcopy(node)
+    consts = [n for n in new.walk() if isinstance(n, ast.Constant) and n.value is not None and not isinstance(n.value, (bool, list))]
+    if not consts:
+        return None
+    c = rng.choice(consts)
+    v = c.value
+    if isinstance(v, int):
+        c.value = v + rng.choice([1, 2, 7])
+    elif isinstance(v, Decimal):
+        c.value = v + Decimal(rng.choice(['1', '0.5', '2.25']))
+    elif isinstance(v, str):
+        c.value = v + rng.choice(['z', 'q'])
+    elif isinstance(v, datetime.date):
+        c.value = v + datetime.timedelta(days=rng.choice([1, 30]))
+    else:
+        return None
+    return new
